@@ -149,3 +149,6 @@ func Quiesce() { quiesceNative() }
 
 // AllFinished reports whether every goroutine started by the harness has returned.
 func AllFinished() bool { return true }
+
+// CopyN copies src[0:n] to dst[0:n]; under the executor n may be symbolic without forking.
+func CopyN(dst, src []byte, n int) { copy(dst[:n], src[:n]) }
